@@ -62,13 +62,20 @@ Invalid == 9
 \* 11 pitems  items{owner{name} ...on Book{owner{name}}}     abstract list; unscoped + type-scoped duplicate entity fetch
 \* 12 pitems2 items{id ...on Film{minutes owner{name title}} owner{name title}}     scoped first, chains below a list
 \* 13 preq    a{x} b{y}                          two @requires dependencies from different subgraphs into one subgraph
-Cfg(s) == IF s <= 9 THEN 1 ELSE 2
-ArgKind(s) == CASE s \in {1, 5} -> "int" [] s = 3 -> "enum" [] OTHER -> "none"
+\* 14 madd    mutation addReview(authorID:"1234", upc:"top-1", review: ARG){body author{id username} product{upc name}}
+\*            (configuration 1) changes the state of the reviews subgraph: later answers depend on the mutations before them
+\* 15 tpdefer topProducts(first: ARG){upc name ... @defer {reviews{body author{username}}}}   incremental delivery (merged)
+\* 16 pecho   echo(filter: {kind: ARG, min: 1, owner: {id: "7"}, tags: ["x", ARG]}, n: $direct)   (configuration 2)
+\*            input-object argument with a NESTED variable next to a direct one; the subgraph echoes what it received
+Cfg(s) == IF s \in {10, 11, 12, 13, 16} THEN 2 ELSE 1
+IsMutation(s) == s = 14
+ArgKind(s) == CASE s \in {1, 5, 15} -> "int" [] s = 3 -> "enum" [] s = 14 -> "str" [] s = 16 -> "nested" [] OTHER -> "none"
 HasDir(s) == s \in {1, 2, 4, 5}
-NVal(s) == CASE s \in {1, 5} -> 3 [] s = 3 -> 2 [] OTHER -> 1
+NVal(s) == CASE s \in {1, 5, 14, 15, 16} -> 3 [] s = 3 -> 2 [] OTHER -> 1
 
 HasVars(r) == \/ ArgKind(r.s) # "none" /\ r.src \in {"var", "dflt"}
               \/ HasDir(r.s) /\ r.ds = "var"
+              \/ r.s = 16                                  \* the direct variable is always there
 
 WellFormed(r) ==
   /\ r.s \in Shapes /\ r.nm \in Nms /\ r.src \in Srcs /\ r.dir \in Dirs /\ r.ds \in DSrcs
@@ -99,6 +106,10 @@ Rewrites(p) ==
 \* What the response may depend on.  An ill-typed variable value is answered with an error that names the
 \* client's variable, hence nm is part of the class in that case only.
 Fresh(r) == [s |-> r.s, val |-> r.val, dir |-> r.dir, bad |-> IF r.val = Invalid THEN r.nm + 1 ELSE 0]
+\* With mutations in the alphabet the answer also depends on the state of the subgraphs = the mutations executed before
+\* on this engine (db: sequence of their values): the reference is a fresh engine that replays the same mutations.
+FreshIn(r, db) == [f |-> Fresh(r), db |-> db]
+DbAfter(r, db) == IF IsMutation(r.s) /\ r.val # Invalid THEN Append(db, r.val) ELSE db
 
 \* ------------------------------------------------------------------ (B) the engine
 \* Normalization (astnormalization + variables_mapper): fragments inlined, literals extracted into variables,
